@@ -5,6 +5,7 @@ import (
 	"encoding/json"
 	"errors"
 	"fmt"
+	"io"
 	"net/http"
 	"net/http/httptest"
 	"os"
@@ -34,6 +35,7 @@ type C07Case struct {
 	HasBody     bool         `json:"has_body"`
 	BodyReq     bool         `json:"body_required"`
 	BodyState   string       `json:"body_state"` // valid | invalid | absent
+	BodyVia     string       `json:"body_via,omitempty"` // "": httptest.NewRequest over a strings.Reader; "multireader": http.NewRequest over a reader of unknown type (ContentLength stays 0)
 	Multi       bool         `json:"multi"`
 	ExclBody    bool         `json:"excl_body"`
 	ExclQuery   bool         `json:"excl_query"`
@@ -108,7 +110,10 @@ func c07Build(c *C07Case) c07Built {
 			body = `{"x":"no"}`
 		}
 		var req *http.Request
-		if body != "" {
+		if body != "" && c.BodyVia == "multireader" {
+			req, _ = http.NewRequest("POST", "/r/1", io.MultiReader(strings.NewReader(body[:3]), strings.NewReader(body[3:])))
+			req.Header.Set("Content-Type", "application/json")
+		} else if body != "" {
 			req = httptest.NewRequest("POST", "/r/1", strings.NewReader(body))
 			req.Header.Set("Content-Type", "application/json")
 		} else {
@@ -356,6 +361,9 @@ func c07Random(r *Rng) C07Case {
 	c.HasBody = r.Chance(60)
 	c.BodyReq = r.Bool()
 	c.BodyState = Pick(r, []string{"valid", "valid", "invalid", "absent"})
+	if r.Chance(20) {
+		c.BodyVia = "multireader"
+	}
 	return c
 }
 
@@ -390,6 +398,8 @@ func c07Directed() []C07Case {
 			c.PathParams = []C07Param{{In: "query", Name: "b", State: "invalid"}}
 		})
 		add(func(c *C07Case) { c.HasBody, c.BodyReq, c.BodyState = true, true, "absent" })
+		add(func(c *C07Case) { c.HasBody, c.BodyReq, c.BodyState, c.BodyVia = true, true, "valid", "multireader" })
+		add(func(c *C07Case) { c.HasBody, c.BodyReq, c.BodyState, c.BodyVia = true, false, "invalid", "multireader" })
 		add(func(c *C07Case) { c.HasBody, c.BodyReq, c.BodyState, c.ExclBody = true, true, "invalid", true })
 		add(func(c *C07Case) {
 			c.HasBody, c.BodyState = true, "invalid"
@@ -432,6 +442,18 @@ func init() {
 			meta.Histogram[fmt.Sprintf("auth_calls=%d", len(o.Calls))]++
 			if o.Panic != "" {
 				meta.GoViolation = append(meta.GoViolation, map[string]any{"signature": "panic", "cases": []any{c}, "go_observation": o, "judgement": "ValidateRequest panicked"})
+			}
+			// the body part's verdict is an oracle of the model (ValidateRequestBody called directly): it is
+			// itself checked against what the body was built to be
+			if c.HasBody {
+				want := c.BodyState == "valid" || (c.BodyState == "absent" && !c.BodyReq)
+				if o.BodyOK != want {
+					meta.GoViolation = append(meta.GoViolation, map[string]any{"signature": "body-part-verdict", "cases": []any{c}, "go_observation": o,
+						"judgement": fmt.Sprintf("the %s body (required=%v) got verdict ok=%v from ValidateRequestBody", c.BodyState, c.BodyReq, o.BodyOK)})
+				}
+				if c.BodyVia != "" {
+					meta.Histogram["body through a reader of unknown type"]++
+				}
 			}
 		}
 		if replay == "" {
